@@ -150,6 +150,14 @@ func (g *G) realQuery(dim int, kind string, prims [][]V, bs, aim []box) query {
 			p, e = t.sub(d), t.add(d) // crosses
 		}
 		q.a = append(append(q.a, p[:dim]...), e[:dim]...)
+	case "tri": // a triangle with the point of the primitive as its centroid
+		var d1, d2 V
+		for a := 0; a < 3; a++ {
+			d1[a], d2[a] = float64(g.Rng.Intn(9)-4)/2, float64(g.Rng.Intn(9)-4)/2
+		}
+		for _, v := range []V{t.add(d1), t.add(d2), t.sub(d1).sub(d2)} {
+			q.a = append(q.a, v[:]...)
+		}
 	default:
 		return g.aimQuery(dim, kind, aim)
 	}
@@ -256,7 +264,7 @@ var kinds2 = []string{"ray", "ray", "first", "first", "sphere", "sphere", "seg",
 // MeshToCollider (scan only).
 func (g *G) realSet3() int {
 	n := g.pickI(realSizes)
-	prims := g.randPrims(3, 3, n, true)
+	prims := g.randPrims(3, 3, n, g.p(0.5)) // zero-area triangles poison `tri` queries (NaN segments), so only in half of the sets
 	tris := make([]*model3d.Triangle, n)
 	for i, p := range prims {
 		tris[i] = &model3d.Triangle{c3(p[0]), c3(p[1]), c3(p[2])}
@@ -549,7 +557,7 @@ func (g *G) realDist3() int {
 		bs[i] = box{v3(t.Min()), v3(t.Max())}
 		prims[i] = []V{v3(t[0]), v3(t[1]), v3(t[2])}
 	}
-	nq := 4 + g.Rng.Intn(4)
+	nq := 6 + g.Rng.Intn(7)
 	emitted := 0
 	for k := 0; k < nq; k++ {
 		c := g.distPoint(3, prims, bs)
@@ -634,7 +642,7 @@ func (g *G) realDist2() int {
 		bs[i] = box{v2(s.Min()), v2(s.Max())}
 		prims[i] = []V{v2(s[0]), v2(s[1])}
 	}
-	nq := 4 + g.Rng.Intn(4)
+	nq := 6 + g.Rng.Intn(7)
 	emitted := 0
 	for k := 0; k < nq; k++ {
 		c := g.distPoint(2, prims, bs)
